@@ -63,21 +63,21 @@ def modeAfter (m : Mode) : List Byte → Mode
 def edit (l : List Byte) : List Byte :=
   l.foldl (fun acc c => if c = bBS ∨ c = bDEL then acc.dropLast else acc ++ [c]) []
 
-/-- split text tokens into delivered lines; `cur` is the line being collected -/
+/-- split text tokens into delivered lines; `cur` is the line being collected, last byte first -/
 def linesTok (cur : List Byte) : List Tok → List (List Byte)
   | [] => []
-  | .nl :: r => edit cur :: linesTok [] r
+  | .nl :: r => edit cur.reverse :: linesTok [] r
   | .ch b :: r =>
-    if b = 0 then (if cur = [] then linesTok [] r else edit cur :: linesTok [] r)
-    else linesTok (cur ++ [b]) r
+    if b = 0 then (if cur = [] then linesTok [] r else edit cur.reverse :: linesTok [] r)
+    else linesTok (b :: cur) r
 
 /-- **the command lines a telnet client's byte stream denotes** -/
 def lines (stream : List Byte) : List (List Byte) := linesTok [] (toks .data stream)
 
 /-- ascii port: LF-terminated pieces, verbatim -/
-def asciiLinesAux (cur : List Byte) : List Byte → List (List Byte)
+def asciiLinesAux (cur : List Byte) : List Byte → List (List Byte)     -- `cur`: last byte first
   | [] => []
-  | b :: r => if b = bLF then cur :: asciiLinesAux [] r else asciiLinesAux (cur ++ [b]) r
+  | b :: r => if b = bLF then cur.reverse :: asciiLinesAux [] r else asciiLinesAux (b :: cur) r
 
 def asciiLines (stream : List Byte) : List (List Byte) := asciiLinesAux [] stream
 
@@ -91,8 +91,8 @@ def consoleLinesAux (cur : List Byte) : List Byte → List (List Byte)
   | [] => []
   | b :: r =>
     if b = bLF ∨ b = bCR ∨ b = bNUL then
-      (if cur = [] then consoleLinesAux [] r else edit cur :: consoleLinesAux [] r)
-    else consoleLinesAux (cur ++ [b]) r
+      (if cur = [] then consoleLinesAux [] r else edit cur.reverse :: consoleLinesAux [] r)
+    else consoleLinesAux (b :: cur) r
 
 def consoleLines (stream : List Byte) : List (List Byte) := consoleLinesAux [] stream
 
@@ -161,7 +161,7 @@ def judgeStep (p : Port) (j : J) (e : Ev) : J :=
     if j.exact ∧ (p == .telnet ∨ p == .console) then
       (if j.delivered == expected p j.rx then j else j.fail "nocmd but the stream holds further complete lines")
     else j
-  | .closed => { j with exact := false }
+  | .closed => { j.fail "closed: the driver dropped the connection although the client did not close it" with exact := false }
   | _ => j
 
 def judgeEv (p : Port) (evs : List Ev) : List String :=
